@@ -1,5 +1,6 @@
 import SpdxVerif.Props.C02
 import SpdxVerif.Props.Consts
+import SpdxVerif.Props.C02Spec
 #print axioms Spdx.C02.matchLeaf_symm
 #print axioms Spdx.C02.matchLeaf_refl
 #print axioms Spdx.C02.lic_never_matches_ref
@@ -12,3 +13,7 @@ import SpdxVerif.Props.Consts
 #print axioms Spdx.C02.pos_ignores_orLater
 #print axioms Spdx.ConstsPin.simplifyLicense_literals
 #print axioms Spdx.ConstsPin.parseLicense_literals
+#print axioms Spdx.C02.matchLeaf_eq_spec
+#print axioms Spdx.C02.matchLeaf_eq_spec_parsed
+#print axioms Spdx.render_fold_inj
+#print axioms Spdx.parse_leavesOK
